@@ -46,6 +46,7 @@ func runProp(prop string) func(Case) ev.Outcome {
 			if i == 0 {
 				out.NonTrivial = v.NonTrivial
 				out.Classes = append(v.Classes, "pal:"+[]string{"plain", "big", "neg", "odd"}[c.Pal%numPals])
+				out.Classes = append(out.Classes, caseFeatures(c, vs.Expect)...)
 				if c.Share && len(exs) == 2 {
 					out.Classes = append(out.Classes, "second_request_reusing_the_callers_resources_object")
 				}
@@ -60,6 +61,46 @@ func runProp(prop string) func(Case) ev.Outcome {
 		}
 		return out
 	}
+}
+
+// caseFeatures names the rarer input dimensions a case exercises (evidence classes).
+func caseFeatures(c Case, e *Expect) []string {
+	var out []string
+	perFam := map[string]int{}
+	delayed := false
+	for _, s := range c.Chain {
+		if s.DelayMs > 0 {
+			delayed = true
+		}
+		for _, op := range s.Ops {
+			if op.Act != "del" {
+				perFam[op.Fam]++
+			}
+		}
+	}
+	for _, n := range perFam {
+		if n > 8 {
+			out = append(out, "more_than_8_keys_of_one_family")
+			break
+		}
+	}
+	if delayed {
+		out = append(out, "slow_handler")
+	}
+	if e != nil && e.SelfDups > 0 {
+		out = append(out, "first_update_collides_with_itself")
+	}
+	if c.Kind == "stop" && c.Fixture == 2 {
+		lo, hi := false, false
+		for _, s := range c.Chain {
+			lo = lo || s.Plugin < 2
+			hi = hi || s.Plugin > 2
+		}
+		if lo && hi {
+			out = append(out, "stop_across_an_unsubscribed_plugin")
+		}
+	}
+	return out
 }
 
 func testProp(t *testing.T, prop string) {
